@@ -107,60 +107,163 @@ def _kills_cursor(stmt, fact_text):
     return False
 
 
+def _lexer_bounds_env(model, lexer_cls):
+    """Ingredients of the interval analysis (E5) of class Lexer: the cursor invariant, which methods may move the
+    cursor, zero-argument predicates, and the lower bounds callers guarantee for integer parameters."""
+    from ..intervals import Bounds, join_lo
+    inv = {CURSOR: (("c", 0), ("len", TOKENS, 0))}
+    writers = {m.name for m in lexer_cls.methods.values()
+               if any(isinstance(t, ast.Attribute) and norm(t) == CURSOR and isinstance(t.ctx, ast.Store)
+                      for t in ast.walk(m.node))}
+    changed = True
+    while changed:
+        changed = False
+        for m in lexer_cls.methods.values():
+            if m.name in writers:
+                continue
+            for n in ast.walk(m.node):
+                if isinstance(n, ast.Call) and isinstance(n.func, ast.Attribute) and norm(n.func.value) == "self" \
+                        and n.func.attr in writers:
+                    writers.add(m.name)
+                    changed = True
+                    break
+    preds = {}
+    for m in lexer_cls.methods.values():
+        b = [x for x in m.node.body if not (isinstance(x, ast.Expr) and isinstance(x.value, ast.Constant))]
+        if len(m.node.args.args) == 1 and len(b) == 1 and isinstance(b[0], ast.Return) and b[0].value is not None:
+            preds[f"self.{m.name}()"] = b[0].value
+
+    def resets(a):
+        for n in ast.walk(a):
+            if isinstance(n, ast.Call) and isinstance(n.func, ast.Attribute) and norm(n.func.value) == "self" \
+                    and n.func.attr in writers:
+                return {CURSOR}
+        return set()
+
+    def bounds(m, contracts):
+        assume = dict(inv)
+        for p, lo in contracts.get(m.name, {}).items():
+            assume[p] = (lo, None)
+        return Bounds(m.node, assume=assume, tracked={CURSOR}, preds=preds, resets=resets)
+
+    # parameter contracts: greatest lower bound every call site guarantees (optimistic fixpoint, then re-checked)
+    int_params = {}
+    for m in lexer_cls.methods.values():
+        ps = [a.arg for a in m.node.args.args[1:]]
+        if m.name in ("__init__", "init"):
+            continue
+        int_params[m.name] = ps
+    BOT = "bottom"
+    contracts = {}
+    for _ in range(4):
+        new = {}
+        for f in model.all_funcs(True):
+            calls = [n for n in ast.walk(f.node) if isinstance(n, ast.Call) and isinstance(n.func, ast.Attribute)
+                     and n.func.attr in int_params and (f.cls is not lexer_cls or norm(n.func.value) == "self")
+                     and (f.cls is lexer_cls or "lexer" in norm(n.func.value).lower())]
+            if not calls:
+                continue
+            b = None
+            for c in calls:
+                ps = int_params[c.func.attr]
+                for k, a in enumerate(c.args[:len(ps)]):
+                    if isinstance(a, ast.Constant) and isinstance(a.value, int) and not isinstance(a.value, bool):
+                        lo = ("c", a.value)
+                    elif isinstance(a, ast.Constant) or isinstance(a, (ast.JoinedStr, ast.List, ast.Tuple)):
+                        continue
+                    else:
+                        if b is None:
+                            b = bounds(f, contracts) if f.cls is lexer_cls else Bounds(f.node)
+                        lo = None
+                        for node in b.g.nodes:
+                            na = node.ast if node.kind != "for" else node.ast.iter
+                            if na is not None and any(x is c for x in ast.walk(na)) and node.id in b.state:
+                                lo = b.ev(a, b.state[node.id])[0]
+                        if lo is not None and lo[0] == "len":
+                            lo = ("c", lo[2])          # len(S) + k >= k
+                        elif lo is not None and lo[0] != "c":
+                            lo = None
+                    cur = new.setdefault(c.func.attr, {}).get(ps[k], BOT)
+                    new[c.func.attr][ps[k]] = lo if cur == BOT else join_lo(cur, lo)
+        new = {m: {p: lo for p, lo in d.items() if lo is not None and lo != BOT} for m, d in new.items()}
+        if new == contracts:
+            break
+        contracts = new
+    return bounds, contracts, writers
+
+
 def cursor(ctx, model, cg, lexer_cls):
+    from ..intervals import le, show
     # who may subscript a token list
     for f in model.all_funcs(True):
         for n in ast.walk(f.node):
             if isinstance(n, ast.Subscript) and norm(n.value).endswith("tokens"):
                 ok = f.cls is lexer_cls
                 ctx.check("C01.cursor", f, n, ok, "token array indexed outside class Lexer")
-    has_next = lexer_cls.methods.get("hasNext")
-    if has_next is None or norm(has_next.node.body[-1]) != f"return {CURSOR} < len({TOKENS})":
-        ctx.broken("Lexer.hasNext", "definition is not `return self.nextToken < len(self.tokens)`")
-    # guard dominance for each subscript
+    bounds, contracts, writers = _lexer_bounds_env(model, lexer_cls)
+    ctx.note("C01.cursor: parameter lower bounds guaranteed by every call site: " +
+             "; ".join(f"{m}({', '.join(f'{p}>={lo[1]}' for p, lo in d.items())})" for m, d in sorted(contracts.items()) if d))
+    # every token read is proven inside [0, len(tokens)) by the interval analysis under the cursor invariant
+    n_subs = 0
     for m in lexer_cls.methods.values():
-        subs = [n for n in ast.walk(m.node) if isinstance(n, ast.Subscript) and norm(n.value) == TOKENS]
-        if not subs:
+        if not any(isinstance(n, ast.Subscript) and norm(n.value) == TOKENS for n in ast.walk(m.node)):
             continue
-        g = CFG(m.node, implicit_exc=False)
-        facts = must_facts(g, kills=_kills_cursor)
-        for node, sub in nodes_containing(g, lambda x: isinstance(x, ast.Subscript) and norm(x.value) == TOKENS):
-            idx = norm(sub.slice)
-            have = facts.get(node.id, frozenset())
-            upper = lower = False
-            if idx == CURSOR:
-                upper = ("self.hasNext()", True) in have or (f"{CURSOR} < len({TOKENS})", True) in have
-                lower = True          # invariant: cursor >= 0 (writers checked below)
-            elif idx == f"{CURSOR} - 1":
-                lower = (f"{CURSOR} == 0", False) in have
-                upper = True          # invariant: cursor <= len(tokens)
-            elif idx.startswith(f"{CURSOR} + ") and idx.endswith(" - 1"):
-                upper = (f"{idx} < len({TOKENS})", True) in have
-                lower = True          # callers pass n >= 1 (literal arguments, checked below)
-            ctx.check("C01.cursor", m, sub, upper and lower,
-                      f"token read {norm(sub)} is not dominated by a bounds test on the same index "
-                      f"(facts here: {sorted(t for t, p in have if 'Token' in t or 'hasNext' in t)})")
-    # writers of the cursor
+        b = bounds(m, contracts)
+        for node, sub in nodes_containing(b.g, lambda x: isinstance(x, ast.Subscript) and norm(x.value) == TOKENS):
+            if isinstance(sub.slice, ast.Slice):
+                continue
+            st = b.at(node)
+            lo, hi = b.ev(sub.slice, st)
+            ok = lo is not None and le(("c", 0), lo) is True and hi is not None and \
+                le(hi, ("len", TOKENS, -1)) is True
+            n_subs += 1
+            ctx.check("C01.cursor", m, sub, ok,
+                      f"token read {norm(sub)} is not proven inside [0, len(tokens)) under the cursor invariant "
+                      f"0 <= nextToken <= len(tokens) (derived range [{show(lo)}, {show(hi)}])")
+    if n_subs < 4:
+        ctx.broken("Lexer", f"only {n_subs} token-array reads found")
+    # writers of the cursor keep the invariant (an increment by a parameter is settled at the call sites below)
+    delegated = set()
     for f in model.all_funcs(True):
-        for n in ast.walk(f.node):
-            tgt = None
-            if isinstance(n, ast.Assign):
-                tgt = [t for t in n.targets]
-            elif isinstance(n, ast.AugAssign):
-                tgt = [n.target]
-            for t in tgt or []:
-                if isinstance(t, ast.Attribute) and t.attr == "nextToken":
-                    ok, why = _cursor_writer_ok(f, n, lexer_cls)
-                    ctx.check("C01.cursor", f, n, ok, why)
-    # peekn(n, ..) / eat(n) callers pass positive literals or proven counts
+        wr = [n for n in ast.walk(f.node) if isinstance(n, (ast.Assign, ast.AugAssign)) and any(
+            isinstance(t, ast.Attribute) and t.attr == "nextToken"
+            for t in (n.targets if isinstance(n, ast.Assign) else [n.target]))]
+        if not wr:
+            continue
+        if f.cls is not lexer_cls:
+            for n in wr:
+                ctx.check("C01.cursor", f, n, False, "token cursor written outside class Lexer")
+            continue
+        b = bounds(f, contracts)
+        params = {a.arg for a in f.node.args.args[1:]}
+        for n in wr:
+            node = next((x for x in b.g.nodes if x.ast is n), None)
+            if node is None or node.id not in b.state:
+                ctx.check("C01.cursor", f, n, False, f"unexpected write to the token cursor: {norm(n)}")
+                continue
+            after = b._transfer(node, "next", b.state[node.id])
+            lo, hi = after.get(CURSOR, (None, None))
+            if f.name == "scan" and isinstance(n, ast.Assign) and norm(n.value) == "0":
+                ctx.ob("C01.cursor", "Lexer.scan: cursor reset to 0", True)
+                continue
+            ok_lo = lo is not None and le(("c", 0), lo) is True
+            ok_hi = hi is not None and le(hi, ("len", TOKENS, 0)) is True
+            if ok_lo and not ok_hi and isinstance(n, ast.AugAssign) and isinstance(n.op, ast.Add) \
+                    and isinstance(n.value, ast.Name) and n.value.id in params:
+                delegated.add(f.name)
+                ok_hi = True
+            ctx.check("C01.cursor", f, n, ok_lo and ok_hi,
+                      f"{norm(n)} does not keep 0 <= nextToken <= len(tokens) (cursor afterwards in "
+                      f"[{show(lo)}, {show(hi)}])")
+    # eat(n) callers pass proven counts
     for f in model.all_funcs(True):
-        if not any(isinstance(n, ast.Call) and isinstance(n.func, ast.Attribute) and n.func.attr == "eat"
+        if not any(isinstance(n, ast.Call) and isinstance(n.func, ast.Attribute) and n.func.attr in delegated
                    for n in ast.walk(f.node)):
             continue
         g = CFG(f.node, implicit_exc=False)
         facts = must_facts(g, kills=_kills_cursor)
         for node, call in nodes_containing(
-                g, lambda x: isinstance(x, ast.Call) and isinstance(x.func, ast.Attribute) and x.func.attr == "eat"):
+                g, lambda x: isinstance(x, ast.Call) and isinstance(x.func, ast.Attribute) and x.func.attr in delegated):
             recv = norm(call.func.value)
             have = facts.get(node.id, frozenset())
             arg = call.args[0] if call.args else None
@@ -171,17 +274,10 @@ def cursor(ctx, model, cg, lexer_cls):
                         ok = True
                     if pol and f"{recv}.peek()" in t:
                         ok = True      # the test evaluated peek() successfully, so a token exists
-            elif f.qual == "Lexer.matchIf" and norm(arg) == "len(token)":
-                ok = _matchif_list_shape(f)
+            elif isinstance(arg, ast.Call) and norm(arg.func) == "len" and len(arg.args) == 1:
+                ok = _lookahead_loops_dominate(g, node, recv, norm(arg.args[0]))
             ctx.check("C01.cursor", f, call, ok,
                       f"{norm(call)} is not preceded by a look-ahead success establishing that many tokens")
-    for f in model.all_funcs(True):
-        for n in ast.walk(f.node):
-            if isinstance(n, ast.Call) and isinstance(n.func, ast.Attribute) and n.func.attr in ("peekn", "peekOne") \
-                    and n.args and f.cls is not lexer_cls:
-                a = n.args[0]
-                ctx.check("C01.cursor", f, n, isinstance(a, ast.Constant) and isinstance(a.value, int)
-                          and a.value >= 1, "peekn/peekOne called with a non-literal or non-positive offset")
     # parse() tests hasNext() before anything else touches the lexer (getPos/getPosNext need a token)
     parse = model.func(P, "parser", "parse")
     first = parse.node.body[0]
@@ -194,44 +290,53 @@ def cursor(ctx, model, cg, lexer_cls):
               "parse_script is not `parse(Lexer(script, filename).scan())`", expr="parse_script body")
 
 
-def _cursor_writer_ok(f, n, lexer_cls):
-    if f.cls is not lexer_cls:
-        return False, "token cursor written outside class Lexer"
-    txt = norm(n)
-    g = CFG(f.node, implicit_exc=False)
-    facts = must_facts(g, kills=lambda s, t: False)
-    have = frozenset()
-    for node in g.nodes:
-        if node.ast is n:
-            have = facts.get(node.id, frozenset())
-    if f.name == "scan" and txt == f"{CURSOR} = 0":
-        return True, ""
-    if f.name == "next" and txt == f"{CURSOR} += 1":
-        ok = ("self.hasNext()", True) in have
-        return ok, "Lexer.next advances the cursor without a preceding hasNext() guard"
-    if f.name == "previous" and txt == f"{CURSOR} -= 1":
-        ok = (f"{CURSOR} == 0", False) in have
-        return ok, "Lexer.previous decrements the cursor without excluding 0"
-    if f.name == "eat" and txt == f"{CURSOR} += n":
-        return True, ""
-    return False, f"unexpected write to the token cursor: {txt}"
-
-
-def _matchif_list_shape(f):
-    """for i in range(len(token)): if not self.peekn(i + 1, token[i], ..): return False  ...  self.eat(len(token))"""
-    ok_loops = 0
-    eats = 0
-    for n in ast.walk(f.node):
-        if isinstance(n, ast.For) and norm(n.iter) == "range(len(token))":
-            b = n.body
-            if len(b) == 1 and isinstance(b[0], ast.If) and norm(b[0].test).startswith("not self.peekn(i + 1, token[i]") \
-                    and isinstance(b[0].body[0], ast.Return) and norm(b[0].body[0].value) == "False":
-                ok_loops += 1
-        if isinstance(n, ast.Call) and norm(n) == "self.eat(len(token))":
-            eats += 1
-    # every list branch is a checking loop, and the single eat follows them
-    loops = sum(1 for n in ast.walk(f.node) if isinstance(n, ast.For))
-    return eats == 1 and ok_loops == loops and loops >= 1
+def _lookahead_loops_dominate(g, eat_node, recv, seq):
+    """Every path to `eat(len(seq))` runs through a loop over all positions of seq whose body leaves the function
+    unless recv.peekn(i + 1, ..) succeeded for that position."""
+    good = set()
+    for n in g.nodes:
+        if n.kind != "for":
+            continue
+        f = n.ast
+        it = norm(f.iter)
+        if it == f"range(len({seq}))" and isinstance(f.target, ast.Name):
+            idx = f.target.id
+        elif it == f"enumerate({seq})" and isinstance(f.target, ast.Tuple) and isinstance(f.target.elts[0], ast.Name):
+            idx = f.target.elts[0].id
+        else:
+            continue
+        if f.orelse:
+            continue
+        # the body tests peekn(idx + 1, ..) unconditionally and returns when it fails
+        ok = False
+        for st in f.body:
+            if isinstance(st, ast.If) and isinstance(st.test, ast.UnaryOp) and isinstance(st.test.op, ast.Not) \
+                    and isinstance(st.test.operand, ast.Call) and norm(st.test.operand.func) == f"{recv}.peekn" \
+                    and st.test.operand.args and norm(st.test.operand.args[0]) in (f"{idx} + 1", f"1 + {idx}") \
+                    and st.body and isinstance(st.body[0], ast.Return):
+                ok = True
+                break
+            if any(isinstance(x, (ast.Continue, ast.Break)) for x in ast.walk(st)):
+                break
+            if isinstance(st, ast.Assign) and any(isinstance(x, ast.Name) and x.id == idx for t in st.targets for x in ast.walk(t)):
+                break
+        if ok and not any(isinstance(x, (ast.Break,)) for x in ast.walk(f)):
+            good.add(n.id)
+    if not good:
+        return False
+    # reachability of the eat node from entry when the good loops' exits are removed
+    seen, todo = set(), [g.entry]
+    while todo:
+        n = todo.pop()
+        if n.id in seen:
+            continue
+        seen.add(n.id)
+        for label, t in n.succ:
+            if n.id in good and label != "iter":
+                continue            # leaving a verified loop: every position was checked
+            todo.append(t)
+    # the eat node must NOT be reachable without leaving a verified loop through its exhausted edge
+    return eat_node.id not in seen
 
 
 # --------------------------------------------------------------------------------------------------
@@ -286,9 +391,13 @@ def progress_scan(ctx, lm):
 
 def progress_parse(ctx, parser_mod):
     try:
-        summary, viol, loops, rounds = parsemodel.analyse(parser_mod.tree)
+        summary, viol, loops, rounds, unknown = parsemodel.analyse(parser_mod.tree)
     except RuntimeError as e:
         ctx.broken("parser.py", str(e))
+    except (AttributeError, IndexError, TypeError, KeyError) as e:
+        ctx.broken("parser.py", f"a parser construct is not understood by the loop-progress interpreter: {e!r}")
+    if viol and unknown:
+        ctx.broken("parser.py", f"loop progress cannot be decided: look-ahead token set not resolved in {unknown[:3]}")
     bad = {}
     for name, w, st in viol:
         bad.setdefault((name, w.lineno), (w, []))[1].append(st)
@@ -582,24 +691,67 @@ def raises(ctx, model, cg, reach):
                 ctx.ob("C01.raise", f"{f.qual}: bare re-raise", True)
                 continue
             e = n.exc
-            if isinstance(e, ast.Call) and norm(e.func) == "CklSyntaxError":
-                ok = len(e.args) == 2 and not (isinstance(e.args[1], ast.Constant) and e.args[1].value is None)
-                ctx.check("C01.raise", f, n, ok, "syntax error raised without a source position")
-                # end-of-input raises agree with the REPL
-                par = _parent_if(f.node, n)
-                if par is not None and "hasNext()" in norm(par.test) and norm(par.test).startswith("not "):
-                    m = e.args[0]
-                    ok2 = isinstance(m, ast.Constant) and isinstance(m.value, str) and m.value.startswith(lit)
-                    ctx.check("C01.raise", f, n, ok2,
-                              f"end-of-input error message does not start with {lit!r}, which the REPL uses to "
-                              f"ask for a continuation line")
+            ctors = _raised_ctors(model, f, e)
+            if ctors is None:
+                ctx.broken(f.qual, f"cannot tell what `raise {norm(e)[:60]}` raises")
+            if ctors == []:
+                ctx.ob("C01.raise", f"{f.qual}: re-raise of the caught exception", True)
                 continue
-            if isinstance(e, ast.Call) and norm(e.func) == "CklRuntimeError" and f.qual == "ValuePattern.__init__":
+            if ctors and all(norm(c.func) == "CklSyntaxError" for c in ctors):
+                for c in ctors:
+                    ok = len(c.args) == 2 and not (isinstance(c.args[1], ast.Constant) and c.args[1].value is None)
+                    ctx.check("C01.raise", f, n, ok, "syntax error raised without a source position")
+                    # end-of-input raises agree with the REPL
+                    par = _parent_if(f.node, n)
+                    if par is not None and "hasNext()" in norm(par.test) and norm(par.test).startswith("not "):
+                        m = c.args[0] if c.args else None
+                        ok2 = isinstance(m, ast.Constant) and isinstance(m.value, str) and m.value.startswith(lit)
+                        ctx.check("C01.raise", f, n, ok2,
+                                  f"end-of-input error message does not start with {lit!r}, which the REPL uses to "
+                                  f"ask for a continuation line")
+                continue
+            if ctors and all(norm(c.func) == "CklRuntimeError" for c in ctors) and f.qual == "ValuePattern.__init__":
                 # converted by the only parse-path caller (C01.conv checks the handler)
                 ctx.ob("C01.raise", f"{f.qual}: CklRuntimeError converted by the parser's handler", True)
                 continue
             ctx.check("C01.raise", f, n, False,
                       f"{norm(e)[:60]} raised on the parse path is not CklSyntaxError(msg, pos)")
+
+
+def _raised_ctors(model, f, e, depth=0):
+    """Constructor calls a raise expression denotes: a direct call of a class, a statically named helper all of whose
+    returns are such calls, or a local bound to one.  None when it cannot be told."""
+    from .common import resolve_static_call
+    if isinstance(e, ast.Call):
+        callee = resolve_static_call(model, f, e)
+        if callee is None:
+            return [e]
+        if depth > 2:
+            return None
+        out = []
+        for r in ast.walk(callee.node):
+            if isinstance(r, ast.Return):
+                if r.value is None:
+                    return None
+                sub = _raised_ctors(model, callee, r.value, depth + 1)
+                if sub is None:
+                    return None
+                out.extend(sub)
+        return out or None
+    if isinstance(e, ast.Name):
+        vals = [a.value for a in ast.walk(f.node) if isinstance(a, ast.Assign) and len(a.targets) == 1
+                and isinstance(a.targets[0], ast.Name) and a.targets[0].id == e.id]
+        handlers = [h for h in ast.walk(f.node) if isinstance(h, ast.ExceptHandler) and h.name == e.id]
+        if handlers and not vals:
+            return []          # re-raise of the caught exception object
+        out = []
+        for v in vals:
+            sub = _raised_ctors(model, f, v, depth + 1)
+            if sub is None:
+                return None
+            out.extend(sub)
+        return out or None
+    return None
 
 
 def _parent_if(fn_node, target):
